@@ -175,7 +175,7 @@ def apply_step(seq, cubes_src, step, rng, exact):
         ax = step["axis"]
         req = {"op": "seq_explode", "seq": mseq, "axis": ax}
         try:
-            out, err = seq.explode_along_axis(ax), None
+            out, err = seq.explode_along_axis(np.int64(ax) if NPINT[0] else ax), None
         except Exception as e:
             out, err = None, err_kind(e)
         a = ax + nd if ax < 0 else ax
